@@ -26,6 +26,8 @@ struct Case
     std::vector<unsigned long long> throwing;
     int hint = -1;
     long long avoided = 0;
+    // bulk runs on a second pool created through the resource partitioner: the default pool keeps `default_size` workers (0: one pool only)
+    int default_size = 0;
 };
 
 static Case decode(tape_t const& tape)
@@ -64,6 +66,11 @@ static Case decode(tape_t const& tape)
         c.throwing.push_back(idx);
     }
     c.hint = t.chance(1, 3) ? static_cast<int>(t.below(W)) : -1;
+    if (W >= 2 && !c.huge && t.chance(1, 3))
+    {
+        c.default_size = 1 + static_cast<int>(t.below(W - 1));
+        if (c.hint >= 0) c.hint = c.hint % (static_cast<int>(W) - c.default_size);
+    }
     return c;
 }
 
@@ -72,7 +79,7 @@ static std::string describe(tape_t const& tape)
     Case c = decode(tape);
     std::ostringstream os;
     os << "{\"config\": " << c.cfg.describe() << ", \"shape_type\": \"" << shape_names[c.shape_t] << "\", \"n\": " << c.n << ", \"predecessor\": \"" << pred_names[c.pred]
-       << "\", \"values\": " << c.nvals << ", \"throwing_indices\": [";
+       << "\", \"bulk_on_second_pool_after_default_pool_of\": " << c.default_size << ", \"values\": " << c.nvals << ", \"throwing_indices\": [";
     for (std::size_t i = 0; i < c.throwing.size(); ++i) os << (i ? "," : "") << c.throwing[i];
     os << "], \"hint\": " << c.hint << "}";
     return os.str();
@@ -233,7 +240,20 @@ static Outcome run(tape_t const& tape)
     Case c = decode(tape);
     restrict_cpus(c.cfg.cpus);
     install_hook(c.cfg);
-    start_runtime(c.cfg);
+    pika::init_params ip;
+    if (c.default_size > 0)
+    {
+        int dsz = c.default_size, total = c.cfg.workers;
+        ip.rp_callback = [dsz, total](pika::resource::partitioner& rp, pika::program_options::variables_map const&) {
+            std::vector<pika::resource::pu const*> pus;
+            for (auto const& d : rp.sockets())
+                for (auto const& co : d.cores())
+                    for (auto const& p : co.pus()) pus.push_back(&p);
+            rp.create_thread_pool("bulkpool");
+            for (int k = dsz; k < total && static_cast<std::size_t>(k) < pus.size(); ++k) rp.add_resource(*pus[static_cast<std::size_t>(k)], "bulkpool");
+        };
+    }
+    start_runtime(c.cfg, ip);
     auto Wp = std::make_unique<World>();
     World& W = *Wp;
     W.n = c.n;
@@ -245,6 +265,7 @@ static Outcome run(tape_t const& tape)
     q.start();
     G().diagnose = [&] { return "bulk(n=" + std::to_string(c.n) + "): callbacks so far " + std::to_string(W.total_calls()) + ", receiver signals " + std::to_string(W.signals.load()); };
     ex::thread_pool_scheduler sched{};
+    if (c.default_size > 0) sched = ex::thread_pool_scheduler{&pika::resource::get_thread_pool("bulkpool")};
     auto sc = sched;
     if (c.hint >= 0) sc = ex::with_hint(sc, pika::execution::thread_schedule_hint(static_cast<std::int16_t>(c.hint)));
     // no-progress detector for the huge-shape class only (DESIGN 3.4): zero callbacks and no signal for 10 s
@@ -320,6 +341,7 @@ static Outcome run(tape_t const& tape)
     out.tags.push_back(std::string("shape:") + shape_names[c.shape_t]);
     out.tags.push_back(std::string("pred:") + pred_names[c.pred]);
     out.tags.push_back("workers:" + std::to_string(c.cfg.workers));
+    if (c.default_size > 0) out.tags.push_back("has:bulk_on_second_pool");
     if (throwing) out.tags.push_back("has:throwing_index");
     if (c.huge) out.tags.push_back("class:huge_shape");
     if (c.n == 0) out.tags.push_back("class:n=0");
